@@ -1,7 +1,8 @@
 (* C14 - A validating writer emits only conforming rows; its output validates again. Property theorems only. *)
 From Coq Require Import String.
+From CP Require Import Model.Delimited Spec.DelimitedSpec Proofs.CsvRoundTrip.
 From CP Require Import Model.Base Model.Ranges Model.Fields Model.Validio Model.ValidioInst Model.History Model.Writer
-  Proofs.ValidioProofs Proofs.WriterProofs.
+  Proofs.ValidioProofs Proofs.WriterProofs Proofs.ReadbackProofs.
 
 (* after any sequence of write_row calls the writer has emitted exactly the rows it accepted, in order; a rejected
    call leaves output and line counter untouched, and the writer continues with the next call *)
@@ -34,3 +35,46 @@ Example writer_example :
   (map (fun e => match e with None => true | Some _ => false end) es, fixed_text [3%nat] [LF] (w_rows wf))
   = ([true; false; true; false], txt "x  " ++ [LF] ++ txt "yy " ++ [LF]).
 Proof. vm_compute. reflexivity. Qed.
+
+(* ---- "its output validates again" ----
+   Reading what the writer emitted back under the same CID accepts every row and returns the written values.
+   (a) arbitrary, also user-defined, checks (CS abstract): provided no written row was refused by a row check - a row a
+       check vetoes may already have been registered by earlier-declared checks (call protocol, C20), so nothing more
+       can hold for arbitrary checks.  The reader then also ends in the writer's check states: same end-of-data verdict.
+   (b) the built-in IsUnique / DistinctCount checks (and the harness plugins): unconditionally, whatever mixture of
+       accepted and rejected rows was written. *)
+Theorem writer_output_validates_again : forall (CS : Type) (c : cid CS) rows sts_w sts_r wf es,
+  write_all c (writer_init c sts_w) rows = (wf, es) -> no_check_veto es ->
+  w_rows wf = accepted_of rows es /\ exists sf evs,
+    reader_rows c MYield None sts_r (w_rows wf) false = (sf, map ORow (skipn (c_header c) (w_rows wf)), None, evs)
+    /\ rs_sts sf = w_sts wf /\ rs_rej sf = 0.
+Proof. intros CS. exact writer_readback_lemma. Qed.
+
+Theorem writer_output_validates_again_builtin_checks : forall (c : cid cstate) ks rows sts_w sts_r wf es,
+  c_checks c = map check_of ks ->
+  write_all c (writer_init c sts_w) rows = (wf, es) ->
+  exists sf evs,
+    reader_rows c MYield None sts_r (w_rows wf) false = (sf, map ORow (skipn (c_header c) (w_rows wf)), None, evs)
+    /\ rs_rej sf = 0.
+Proof. exact builtin_writer_readback_lemma. Qed.
+
+(* the delimited stream in between: the text the delimited row writer produces for the emitted rows parses back into
+   exactly those rows (C12), so the two statements above apply to the rows a Reader gets from the written file *)
+Theorem delimited_writer_stream_reads_back : forall (CS : Type) (c : cid CS) rows sts_w wf es d out,
+  write_all c (writer_init c sts_w) rows = (wf, es) -> wf_dialect d ->
+  delimited_text d (w_rows wf) = Some out -> csv_read d out = (accepted_of rows es, true).
+Proof.
+  intros CS c rows sts_w wf es d out H WF T.
+  destruct (write_all_emits c _ _ _ _ H) as [_ [E _]]. cbn in E. rewrite <- E.
+  apply csv_roundtrip; assumption.
+Qed.
+
+(* non-vacuity: duplicates and field errors are refused on writing; what was written reads back completely *)
+Example readback_example :
+  let c := mkcid false None 1 [mkfield (txt "a") false None HText; mkfield (txt "b") false None (HChoice [txt "x"; txt "y"])]
+                 [KUnique [0%nat]; KDistinct 1%nat CLe 2%Z] in
+  let '(wf, es) := write_all c (writer_init c []) [[txt "name"; txt "kind"]; [txt "1"; txt "x"]; [txt "1"; txt "y"]; [txt "2"; txt "z"]; [txt "3"; txt "y"]] in
+  let '(_, outs, r, _) := reader_rows c MYield None [] (w_rows wf) false in
+  map (fun e => match e with None => true | Some _ => false end) es = [true; true; false; false; true]
+  /\ outs = [ORow [txt "1"; txt "x"]; ORow [txt "3"; txt "y"]] /\ r = None.
+Proof. vm_compute. repeat split; reflexivity. Qed.
